@@ -189,7 +189,7 @@ func c11Known(c *fw.Ctx, ts []c11Codec) map[string]bool {
 
 func runC11(c *fw.Ctx) {
 	res := c.Res
-	res.Rule = "for every type with an encoder/decoder pair in types, consensus, gateway, rhp/v2, rhp/v3, rhp/v4: seeded reflection-generated values (boundary currencies 0/2^64/max, nil vs empty slices, zero/max timestamps, all resolution kinds, policies nested up to 32 deep, every instruction kind); per value: round trip up to the documented normalisations, byte-identical re-encoding, determinism, injectivity, every proper prefix fails (all prefixes up to 400 bytes, sampled beyond), single-field mutation changes the bytes; the encoding and a sample of prefixes are also decoded and re-encoded by the Lean schema generated from the method bodies. A case is non-trivial when the encoding is non-empty; distinct by (type, bytes)."
+	res.Rule = "for every type with an encoder/decoder pair in types, consensus, gateway, rhp/v2, rhp/v3, rhp/v4: seeded reflection-generated values (boundary currencies 0/2^64/max, nil vs empty slices, zero/max timestamps, all resolution kinds, policies nested up to 32 deep, every instruction kind; plus, for every byte-string / string / small-element slice field of every type, sizes n-1, n, n+1, 2n, 2n+1 around the Encoder's and Decoder's internal buffer sizes n (generated facts) and multi-KiB sizes); per value: round trip up to the documented normalisations, byte-identical re-encoding, determinism, injectivity, every proper prefix fails (all prefixes up to 400 bytes, sampled beyond), single-field mutation changes the bytes; the encoding and a sample of prefixes are also decoded and re-encoded by the Lean schema generated from the method bodies. A case is non-trivial when the encoding is non-empty; distinct by (type, bytes)."
 	ts := c11Types()
 	if c.Replay != "" {
 		c11Replay(c, ts)
@@ -199,8 +199,10 @@ func runC11(c *fw.Ctx) {
 	g := &c11Gen{rng: c.Rng}
 	perType := c.Budget(24, 600)
 	model := &c11Model{}
+	consts := c11GetConsts(c)
 	for _, ct := range ts {
 		c11Type(c, g, ct, perType, known[ct.lean], model)
+		c11Blobs(c, g, ct, consts, known[ct.lean], model)
 	}
 	res.CountN("types", len(ts))
 	res.CountN("types-with-generated-schema", len(known))
@@ -238,14 +240,31 @@ func c11Violate(c *fw.Ctx, key, what string, ct c11Codec, input []byte, exp, obs
 }
 
 func c11Type(c *fw.Ctx, g *c11Gen, ct c11Codec, n int, modelled bool, model *c11Model) {
-	res := c.Res
 	seen := map[string]any{} // encoding -> value (injectivity)
 	for i := 0; i < n; i++ {
 		p := ct.generate(g)
+		if c11CheckValue(c, g, ct, p, modelled, model, seen, "") && (i < 8 || c.Thorough()) {
+			// field completeness: change one field, the bytes must change
+			b, _ := c11Encode(ct, p)
+			c11Mutate(c, g, ct, p, b)
+		}
+	}
+}
+
+// c11CheckValue runs the per-value statements (round trip, re-encode, determinism,
+// injectivity, truncation) and queues the model comparison; false if the value could
+// not be encoded and decoded back.
+func c11CheckValue(c *fw.Ctx, g *c11Gen, ct c11Codec, p any, modelled bool, model *c11Model, seen map[string]any, tag string) bool {
+	res := c.Res
+	i := 1
+	if tag == "" {
+		i = len(seen)
+	}
+	{
 		b, pm := c11Encode(ct, p)
 		if pm != "" {
 			c11Violate(c, "c11-encode-panic:"+ct.goName, "encoding a well-formed value panics: "+pm, ct, nil, "bytes", "panic")
-			continue
+			return false
 		}
 		res.Eval(ct.lean+" "+fw.Hex(b), len(b) > 0)
 		res.Count("pkg:" + strings.SplitN(ct.goName, ".", 2)[0])
@@ -271,10 +290,10 @@ func c11Type(c *fw.Ctx, g *c11Gen, ct c11Codec, n int, modelled bool, model *c11
 		switch {
 		case o.panicked:
 			c11Violate(c, "c11-roundtrip:"+ct.goName, "decoding a valid encoding panics: "+o.panicMsg, ct, b, "value", "panic")
-			continue
+			return false
 		case o.err != nil:
 			c11Violate(c, "c11-roundtrip:"+ct.goName, "decoding a valid encoding fails: "+o.err.Error(), ct, b, "value", "error")
-			continue
+			return false
 		case o.rest != 0:
 			c11Violate(c, "c11-roundtrip:"+ct.goName, "decoding a valid encoding leaves bytes unread", ct, b, "0 bytes left", fmt.Sprint(o.rest))
 		}
@@ -287,11 +306,11 @@ func c11Type(c *fw.Ctx, g *c11Gen, ct c11Codec, n int, modelled bool, model *c11
 			c11Violate(c, "c11-reencode:"+ct.goName, "re-encoding the decoded value gives different bytes", ct, b, fw.Hex(b), fw.Hex(b3)+pm)
 		}
 		// injectivity
-		if q, ok := seen[string(b)]; ok {
+		if q, ok := seen[string(b)]; ok && seen != nil {
 			if !c11NormEq(reflect.ValueOf(p).Elem(), reflect.ValueOf(q).Elem()) {
 				c11Violate(c, "c11-not-injective:"+ct.goName, "two different values have the same encoding", ct, b, "different bytes", "same bytes")
 			}
-		} else {
+		} else if seen != nil {
 			seen[string(b)] = p
 		}
 		if modelled {
@@ -324,11 +343,8 @@ func c11Type(c *fw.Ctx, g *c11Gen, ct c11Codec, n int, modelled bool, model *c11
 				model.add("codec "+ct.lean+" "+c11Hex(b[:k]), c11GoLine(ct, c11Decode(ct, b[:k])))
 			}
 		}
-		// field completeness: change one field, the bytes must change
-		if i < 8 || c.Thorough() {
-			c11Mutate(c, g, ct, p, b)
-		}
 	}
+	return true
 }
 
 func c11Mutate(c *fw.Ctx, g *c11Gen, ct c11Codec, p any, b []byte) {
